@@ -19,7 +19,7 @@ _ORIG_NEW, _ORIG_DIGEST = _hmac.new, _hmac.digest
 
 
 def real_prf(key, msg):
-    return _ORIG_NEW(key, msg, hashlib.sha512).digest()
+    return _ORIG_DIGEST(key, msg, "sha512")
 
 
 def _is_sha512(d):
@@ -49,6 +49,57 @@ class _FakeHMAC:
 
     def hexdigest(self):
         return self.digest().hex()
+
+
+_ACTIVE = [None]       # the PRF substitute currently installed (None: every HMAC is the real one)
+
+
+class TrackedHMAC(_hmac.HMAC):
+    """what hmac.new() hands to the code under test from the moment the harness starts (install_tracking() runs BEFORE the
+    package is imported): an ordinary HMAC object that also remembers its key and message, so that a PRF substitute installed
+    LATER still governs objects created earlier - a module-level pre-keyed object, .copy() / .update() chains. The reference
+    models never see this class (they keep the original hmac.new / the C-level hmac.digest saved at import)."""
+    __slots__ = ("_vf_key", "_vf_msg", "_vf_dm")
+
+    def __init__(self, key, msg=None, digestmod=""):
+        super().__init__(key, msg, digestmod)
+        self._vf_key = bytes(key)
+        self._vf_msg = bytes(msg) if msg is not None else b""
+        self._vf_dm = digestmod
+
+    def update(self, msg):
+        super().update(msg)
+        self._vf_msg += bytes(msg)
+
+    def copy(self):
+        other = super().copy()
+        other._vf_key, other._vf_msg, other._vf_dm = self._vf_key, self._vf_msg, self._vf_dm
+        return other
+
+    def digest(self):
+        prf = _ACTIVE[0]
+        if prf is not None and _is_sha512(self._vf_dm):
+            return prf.impl_side(self._vf_key, self._vf_msg)
+        return super().digest()
+
+    def hexdigest(self):
+        return self.digest().hex()
+
+
+def _tracked_new(key, msg=None, digestmod=""):
+    return TrackedHMAC(key, msg, digestmod)
+
+
+def _tracked_digest(key, msg, digest):
+    prf = _ACTIVE[0]
+    if prf is not None and _is_sha512(digest):
+        return prf.impl_side(bytes(key), bytes(msg))
+    return _ORIG_DIGEST(key, msg, digest)
+
+
+def install_tracking():
+    """permanent, installed before the package under test is imported (so `from hmac import new` inside it is covered too)"""
+    _hmac.new, _hmac.digest = _tracked_new, _tracked_digest
 
 
 class PRF:
@@ -105,13 +156,18 @@ def installed(prf):
         if _is_sha512(digest):
             return prf.impl_side(bytes(key), bytes(msg))
         return _ORIG_DIGEST(key, msg, digest)
-    _hmac.new, _hmac.digest = new, digest
+    cur_new, cur_digest = _hmac.new, _hmac.digest
+    if cur_new is _ORIG_NEW:                 # tracking not installed (stand-alone use): fall back to the temporary stand-ins
+        _hmac.new, _hmac.digest = new, digest
     old = hd.PRF_HOOK[0]
     hd.PRF_HOOK[0] = prf
+    prev = _ACTIVE[0]
+    _ACTIVE[0] = prf
     try:
         yield prf
     finally:
-        _hmac.new, _hmac.digest = _ORIG_NEW, _ORIG_DIGEST
+        _ACTIVE[0] = prev
+        _hmac.new, _hmac.digest = cur_new, cur_digest
         for m, f in saved:
             m.hmac_sha512 = f
         hd.PRF_HOOK[0] = old
